@@ -132,6 +132,9 @@ fn panic_msg(e: Box<dyn std::any::Any + Send>) -> String {
     }
 }
 
+/// One case = a directory with pre-existing entries and one or more appender LIFETIMES over it: the case's own
+/// (t0, max, iface, threads, ops) and then every element of "more" (same keys; rotation/prefix/suffix are the case's).
+/// Each lifetime builds a new appender over whatever the directory holds and drops it at the end.
 fn run_case(case: &Value, dir: &Path, gap: Duration) -> Value {
     std::fs::create_dir_all(dir).unwrap();
     for p in case["pre"].as_array().map(|a| a.as_slice()).unwrap_or(&[]) {
@@ -142,6 +145,22 @@ fn run_case(case: &Value, dir: &Path, gap: Duration) -> Value {
             None => std::fs::create_dir_all(dir.join(name)).unwrap(),
         }
     }
+    let mut first = run_life(case, dir, gap);
+    let mut more = Vec::new();
+    for m in case["more"].as_array().map(|a| a.as_slice()).unwrap_or(&[]) {
+        let mut c = case.clone();
+        for k in ["t0", "max", "iface", "threads", "ops"] {
+            c[k] = m[k].clone();
+        }
+        more.push(run_life(&c, dir, gap));
+    }
+    if !more.is_empty() {
+        first["more"] = Value::Array(more);
+    }
+    first
+}
+
+fn run_life(case: &Value, dir: &Path, gap: Duration) -> Value {
     std::thread::sleep(gap);
     let mut b = RollingFileAppender::builder().rotation(rotation(case["rot"].as_str().unwrap()));
     if let Some(p) = case["prefix"].as_str() {
@@ -154,9 +173,11 @@ fn run_case(case: &Value, dir: &Path, gap: Duration) -> Value {
         b = b.max_log_files(n as usize);
     }
     __verif::set_thread_clock(Some((case["t0"].as_i64().unwrap(), 0)));
-    let app = match b.build(dir) {
-        Ok(a) => a,
-        Err(e) => return json!({"id": case["id"], "error": format!("build: {}", e)}),
+    // Builder::build computes next_date first: past the time crate's range that PANICS (before anything is touched)
+    let app = match catch_unwind(AssertUnwindSafe(|| b.build(dir))) {
+        Ok(Ok(a)) => a,
+        Ok(Err(e)) => return json!({"id": case["id"], "error": format!("build: {}", e)}),
+        Err(p) => return json!({"id": case["id"], "build_panic": panic_msg(p), "init": listing(dir), "steps": []}),
     };
     let init = listing(dir);
     let shared = case["iface"].as_str() == Some("s");
